@@ -4,7 +4,7 @@
 cd "${1:-/repo}" || exit 2
 unset GOFLAGS GOTOOLCHAIN GOSUMDB
 export GOPROXY=off
-go test -mod=mod -json -vet=off -count=1 -timeout 25m ./... > /tmp/baseline.json 2>/tmp/baseline.err
+go test -mod=mod -json -vet=off -count=1 -timeout 8m ./... > /tmp/baseline.json 2>/tmp/baseline.err
 # the suite leaves an untracked root/.config/slip behind in the tree it ran in
 git ls-files --error-unmatch root >/dev/null 2>&1 || rm -rf ./root
 python3 - <<'PY'
